@@ -1,21 +1,21 @@
-\* exhaustive, repaired flags, adversarial names (underscores): 2 databases x 2 collection names x 1 incarnation x 1 partition; source time 10 min behind the local clock
+\* exhaustive plan enumeration, large catalogs: every catalog of the MClargeq configuration (filler block of 1500 records in every gap)
 SPECIFICATION Spec
 CHECK_DEADLOCK FALSE
-INVARIANTS TypeOK ContractMilvus ContractKafka
+INVARIANTS PlanOut
 CONSTANTS
-  DBs <- TwoDBs
-  CNames <- TwoCs
+  DBs <- OneDB
+  CNames <- OneC
   PNames <- OneP
-  MaxInc = 1
-  MaxPInc = 1
+  MaxInc = 2
+  MaxPInc = 2
   DbStates = {"live", "goneDown", "goneBoth"}
   CStates = {"created", "dropped", "tombstone"}
   PStates = {"created", "dropped"}
-  Concrete <- NamesClash
+  Concrete <- NamesPlain
   Now = 100
   Skews = {"behind"}
-  FillGaps = "off"
-  FillN = 0
+  FillGaps = "all"
+  FillN = 1500
   Page = 1000
   ListTruncated = FALSE
   ClampLocal = FALSE
